@@ -75,6 +75,6 @@ fn main() {
             std::process::exit(2);
         }
     };
-    let code = finish(&ctx, report);
+    let code = finish(&ctx, &findings, report);
     std::process::exit(code);
 }
